@@ -13,16 +13,16 @@ pub struct Context {
     size: Vec<usize>,
     position: Vec<usize>,
     namespaces: Vec<(Option<String>, String)>,
-    predicates: HashMap<(usize, usize, usize, usize), bool>,
+    predicates: HashMap<(usize, usize, Option<String>, usize, usize), bool>,
 }
 
 impl Context {
     /// What a predicate of the running query gave for a context node, position and size.
-    pub(super) fn predicate(&self, key: &(usize, usize, usize, usize)) -> Option<bool> {
+    pub(super) fn predicate(&self, key: &(usize, usize, Option<String>, usize, usize)) -> Option<bool> {
         self.predicates.get(key).copied()
     }
 
-    pub(super) fn set_predicate(&mut self, key: (usize, usize, usize, usize), value: bool) {
+    pub(super) fn set_predicate(&mut self, key: (usize, usize, Option<String>, usize, usize), value: bool) {
         self.predicates.insert(key, value);
     }
 
